@@ -10,3 +10,29 @@ def c07_threshold_lone_sample(rec, fctx):
     Recognised only then, and only when the implementation still agrees with the pinned model of the kernel."""
     return bool(fctx and fctx.get("op") == "threshold" and fctx.get("lone_kept", False)
                 and fctx.get("impl_equals_model", False))
+
+
+def c11_empty_series_with_support(rec, fctx):
+    """A series with NO sample but a non-empty time support (only obtainable by constructing it with every
+    sample outside the support) loads back with the empty support: the reader goes through the constructor,
+    which gives an empty index the empty support.  Recognised only when the object is empty, its support is
+    not, and the support is the only thing that differs."""
+    inp = rec.get("input") or {}
+    obj = inp.get("obj") or {}
+    if obj.get("cls") not in ("Ts", "Tsd", "TsdFrame", "TsdTensor"):
+        return False
+    if obj.get("t") != [] or not obj.get("sup") or not obj["sup"][0]:
+        return False
+    impl = rec.get("impl") or {}
+    return set(impl.keys()) == {"sup"} and list(map(list, impl["sup"])) == [[], []]
+
+
+def c20_group_lone_spike(rec, fctx):
+    """jitter_timestamps(keep_tsupport=False) / shuffle_ts_intervals on a TsGroup: the generator rebuilds the group from
+    nap.Ts(new timestamps) WITHOUT a support, so the new support is the union of the members' own supports; a member whose new
+    timestamps span no duration (a single spike) has none, and its spike is dropped by the group's restriction unless it lies inside
+    another member's span.  Recognised only for that member class, only for the two support-recomputing generators, only when the
+    spike is not inside the others' new span, and (on recorded draws) only when the implementation still equals the group model."""
+    return bool(fctx and fctx.get("group") and fctx.get("member_count") == 1 and fctx.get("member_lost")
+                and fctx.get("op") in ("jitter_timestamps", "shuffle_ts_intervals") and fctx.get("outside_others")
+                and fctx.get("impl_equals_model") is not False)
